@@ -104,6 +104,10 @@ type DataPlan struct {
 	// default the backend behaves like io.ReadAll-based backends do and
 	// returns the reader's (non-EOF) error.
 	IgnoreReadErr bool
+	// ContentVerdict: the verdict is a function of the message actually read:
+	// a message containing "verdict:E-<k>;" is rejected with SMTPError 554
+	// "E-<k>", anything else is accepted (unless the reader failed).
+	ContentVerdict bool
 }
 
 const (
@@ -156,6 +160,10 @@ type BEvent struct {
 	Opts     string
 	Res      string // "" = nil
 	ResCode  int
+	// SrvWritten is the number of octets the server had written on this
+	// connection when the callback began: it places the callback between two
+	// replies.
+	SrvWritten int
 
 	// NewSession
 	Hostname string
@@ -180,7 +188,7 @@ type SimBackend struct {
 	events   []*BEvent
 	nsess    int
 	perConn  map[int]*connCounters
-	connByID func(net.Conn) int
+	srvConns map[int]*SimConn
 }
 
 type connCounters struct {
@@ -189,7 +197,7 @@ type connCounters struct {
 }
 
 func NewSimBackend(plan BackendPlan) *SimBackend {
-	return &SimBackend{plan: plan, perConn: map[int]*connCounters{}}
+	return &SimBackend{plan: plan, perConn: map[int]*connCounters{}, srvConns: map[int]*SimConn{}}
 }
 
 func (b *SimBackend) connPlan(conn int) *ConnBackendPlan {
@@ -206,8 +214,17 @@ func (b *SimBackend) connPlan(conn int) *ConnBackendPlan {
 // synchronises with other goroutines; after it, the callback touches only ev.
 func (b *SimBackend) begin(conn, sess int, kind, arg string) *BEvent {
 	now := time.Now().UnixNano()
+	written := 0
 	b.mu.Lock()
-	ev := &BEvent{Seq: len(b.events), Conn: conn, Sess: sess, Kind: kind, Begin: now, Arg: arg}
+	sc := b.srvConns[conn]
+	b.mu.Unlock()
+	if sc != nil {
+		sc.wr.mu.Lock()
+		written = len(sc.wr.buf)
+		sc.wr.mu.Unlock()
+	}
+	b.mu.Lock()
+	ev := &BEvent{Seq: len(b.events), Conn: conn, Sess: sess, Kind: kind, Begin: now, Arg: arg, SrvWritten: written}
 	b.events = append(b.events, ev)
 	b.mu.Unlock()
 	return ev
@@ -478,6 +495,26 @@ func (s *simSession) runData(ev *BEvent, r io.Reader, p *DataPlan, sc smtp.Statu
 		p.V.err()
 	}
 	err = p.V.err()
+	if p.ContentVerdict {
+		err = nil
+		if i := strings.Index(string(ev.Read), "verdict:E-"); i >= 0 {
+			rest := string(ev.Read[i+len("verdict:"):])
+			if j := strings.IndexByte(rest, ';'); j > 0 {
+				err = &smtp.SMTPError{Code: 554, EnhancedCode: smtp.EnhancedCode{5, 6, 0}, Message: rest[:j]}
+			}
+		}
+	}
+	if p.ContentVerdict && ev.termErr != nil {
+		// an aborted delivery reports an error that names the message it belonged to
+		tag := "empty"
+		if i := strings.Index(string(ev.Read), "msg-"); i >= 0 {
+			tag = string(ev.Read[i:])
+			if j := strings.IndexAny(tag, " \r\n"); j > 0 {
+				tag = tag[:j]
+			}
+		}
+		err = &smtp.SMTPError{Code: 554, EnhancedCode: smtp.EnhancedCode{5, 0, 0}, Message: "stale-" + tag}
+	}
 	if err == nil && ev.termErr != nil && !p.IgnoreReadErr {
 		err = ev.termErr
 	}
